@@ -224,7 +224,9 @@ def handle (input impl : Json) : R Reply := do
     -- second; the harness measures the longest virtual time an open honest member went without a poll
     let gap ← asNat (fieldD impl "maxPollGapMs" (.num 0))
     let pollOk := decide (gap ≤ 2500)
-    let ex := explain t restarts
+    let qm ← asNat (fieldD impl "quorumMismatch" (.num 0))
+    let ex := if qm > 0 then s!"observation-quorum: ObservationQuorum answered differently from 'at least 2f+1 observations' {qm} time(s) (n={t.n}, f={t.f}): with 2f+1 live honest members rounds would never produce an outcome" else explain t restarts
+    let si := si && decide (qm = 0)
     let fail := if !pollOk && (si || ex.startsWith "two-reports-one-work/") then
         s!"polling-stopped: an open honest member went {gap} ms without asking its transmit event provider (cadence 1000 ms): transmit events are no longer consumed, performed work stays in flight"
       else if si then "" else ex
